@@ -190,6 +190,9 @@ char *qmail_close(struct qmail *qq)
   CHECK(qq_opened && !qq_closed && n_from == 1 && n_to == 1, "message is closed after sender and recipient were given");
   CHECK(!put_after_from, "no body data after the envelope has begun");
   qq_closed = 1;
+  /* qmail_close() reports a temporary (Z...) or a permanent (D...) failure of qmail-queue:
+   * either way the notice was NOT queued (qmail-queue(8), qmail.c exit-code table) */
+  if (in_close_fail == 2) return "Dqq permanent problem (#5.3.0)";
   if (qq_failed || in_close_fail) return "Zqq read error (#4.3.0)";
   qq_close_ok = 1;
   return "";
@@ -303,7 +306,7 @@ void vmain(void)
   for (i = 0; i < SL; ++i) ASSUME(in_sender[i] != 0);
   for (i = 0; i < DL; ++i) ASSUME(in_dbl[i] != 0);
   in_sender[SL] = 0; in_dbl[DL] = 0;                 /* constant terminators */
-  ASSUME(in_getinfo_fail <= 1 && in_stat <= 2 && in_openqq_fail <= 1 && in_close_fail <= 1 && in_unlink_fail <= 1);
+  ASSUME(in_getinfo_fail <= 1 && in_stat <= 2 && in_openqq_fail <= 1 && in_close_fail <= 2 && in_unlink_fail <= 1);
   ASSUME(in_openfile_fail <= 2 && in_read_fail <= 2);
   /* chain queries (plan: bounce_chain): STEP 1 = any sender of SL bytes: the CHECK in
    * qmail_from shows the notice's sender is "" or #@[];  STEP 2 = sender "" (SL=0): the
@@ -373,7 +376,7 @@ void vmain(void)
     WITNESS("unspecified_sender_form");
   }
   if (in_close_fail || in_openfile_fail || in_read_fail) {
-    if (in_close_fail) { CHECK(rc == 0 && !n_unlink, "C14: qmail-queue reports failure: try later, bounce/N stays"); WITNESS("qq_failed"); }
+    if (in_close_fail) { CHECK(rc == 0 && !n_unlink, "C14: qmail-queue reports failure: try later, bounce/N stays"); WITNESS("qq_failed"); if (in_close_fail == 2) WITNESS("qq_failed_permanently"); }
     if (qq_failed) { CHECK(rc == 0 && !n_unlink, "C14: a file could not be read: the notice is abandoned, bounce/N stays"); WITNESS("read_failed"); }
   } else {
     CHECK(n_unlink == 1 && rc == unlink_ok, "C14: after the notice was queued bounce/N is removed");
